@@ -416,6 +416,36 @@ fn conformance_part(ctx: &mut Ctx, tier: Tier) {
     part.exhaustive = true;
     t.into_part(ctx, part);
 
+    // long rejection runs: k rejected iterations (k up to 64, thorough 256) followed by one accepted
+    let kmax = if tier.thorough() { 256 } else { 64 };
+    let rejecting: Vec<Ans> = vec![Ans { z0: 0, hi_edge: true, b: 0, ber: 4 }, Ans { z0: 3, hi_edge: false, b: 1, ber: 3 }, Ans { z0: 18, hi_edge: false, b: 0, ber: 4 }];
+    let accepting = Ans { z0: 0, hi_edge: true, b: 1, ber: 0 };
+    let t = cs
+        .par_iter()
+        .map(|&(mu, sigma, smin)| {
+            let mut t = Tally::default();
+            for (ri, r) in rejecting.iter().enumerate() {
+                let rb = answer_bytes(mu, sigma, smin, *r);
+                if !matches!(rs::sampler_step(mu, sigma, smin, &rb), rs::Step::Reject) {
+                    continue;
+                }
+                let ab = answer_bytes(mu, sigma, smin, accepting);
+                for k in 0..=kmax {
+                    if k > 20 && (k % 8 != 0) && ri != 0 {
+                        continue;
+                    }
+                    let mut script = vec![rb; k];
+                    script.push(ab);
+                    run_script(&mut t, mu, sigma, smin, &script);
+                }
+            }
+            t
+        })
+        .reduce(Tally::default, reduce);
+    let mut part = Part::new("sampler_z_long_rejection_runs", &format!("k rejected iterations (three kinds of rejecting answer) followed by one accepted answer, for every k in 0..={} (first kind) / 0..20 and every 8th (others), all cells: the sampler must consume exactly k+1 iterations and return the accepted value", kmax));
+    part.exhaustive = true;
+    t.into_part(ctx, part);
+
     if tier.thorough() {
         let t = cs
             .par_iter()
